@@ -90,9 +90,67 @@ func isNonReturningCall(i ssa.Instruction) (bool, string) {
 				}
 				return true, n
 			}
+			if failHelper(f, 0) {
+				return true, fname(f) + " (reports and exits non-zero)"
+			}
 		}
 	}
 	return false, ""
+}
+
+// failHelper: a function of the command itself every return of which lies behind a call that
+// does not return and exits non-zero (log.Printf + os.Exit(1), log.Fatalf behind a table of
+// formats): calling it is an exit.
+func failHelper(f *ssa.Function, depth int) bool {
+	if f == nil || len(f.Blocks) == 0 || depth > 1 || f.Pkg == nil || f.Pkg.Pkg.Name() != "main" {
+		return false
+	}
+	var exits []ssa.Instruction
+	for _, bb := range f.Blocks {
+		for _, ins := range bb.Instrs {
+			call, ok := ins.(*ssa.Call)
+			if !ok {
+				continue
+			}
+			g := call.Call.StaticCallee()
+			if g == nil {
+				continue
+			}
+			n := stdName(g)
+			switch {
+			case loggerFatal[n] && len(call.Call.Args) > 0 && loggerToStderr(call.Call.Args[0]):
+				exits = append(exits, ins)
+			case nonReturning[n]:
+				if n == "os.Exit" {
+					if k, isK := intConst(call.Call.Args[0]); !isK || k == 0 {
+						continue
+					}
+				}
+				exits = append(exits, ins)
+			case g != f && failHelper(g, depth+1):
+				exits = append(exits, ins)
+			}
+		}
+	}
+	if len(exits) == 0 {
+		return false
+	}
+	for _, bb := range f.Blocks {
+		r, ok := bb.Instrs[len(bb.Instrs)-1].(*ssa.Return)
+		if !ok {
+			continue
+		}
+		behind := false
+		for _, e := range exits {
+			if e.Block() == r.Block() || e.Block().Dominates(r.Block()) {
+				behind = true
+			}
+		}
+		if !behind {
+			return false
+		}
+	}
+	return true
 }
 
 func isStdoutWrite(i ssa.Instruction) (bool, string) {
@@ -416,6 +474,9 @@ func ruleCmd(c *Ctx) {
 		{
 			bad := ""
 			for _, fn := range fns {
+				if failHelper(fn, 0) {
+					continue // its exit is unconditional by design; its call sites are judged
+				}
 				allInstrs(fn, func(i ssa.Instruction) {
 					nr, what := isNonReturningCall(i)
 					if !nr {
